@@ -626,6 +626,38 @@ def expand_list_comprehensions(fn: ast.FunctionDef) -> bool:
     return changed
 
 
+def split_conditional_assignments(fn: ast.FunctionDef) -> bool:
+    """`x = A if C else B`  ->  `if C: x = A` / `else: x = B` (statement level): path rules then see two paths."""
+    changed = False
+
+    def block(stmts: List[ast.stmt]) -> List[ast.stmt]:
+        nonlocal changed
+        out: List[ast.stmt] = []
+        for st in stmts:
+            if isinstance(st, (ast.FunctionDef, ast.AsyncFunctionDef, ast.ClassDef)):
+                out.append(st)
+                continue
+            for fld in ("body", "orelse", "finalbody"):
+                v = getattr(st, fld, None)
+                if isinstance(v, list) and v and isinstance(v[0], ast.stmt):
+                    setattr(st, fld, block(v))
+            if isinstance(st, ast.Try):
+                for h in st.handlers:
+                    h.body = block(h.body)
+            val = getattr(st, "value", None) if isinstance(st, (ast.Assign, ast.AnnAssign)) else None
+            if isinstance(val, ast.IfExp):
+                a, b = clone(st), clone(st)
+                a.value, b.value = val.body, val.orelse
+                out.append(ast.copy_location(ast.If(test=val.test, body=[a], orelse=[b]), st))
+                changed = True
+                continue
+            out.append(st)
+        return out
+
+    fn.body = block(fn.body)
+    return changed
+
+
 def normalised(ctx: Ctx, f: Func, steps: str = "delegation,tailcalls,calls,unroll,quant,beta,getattr,temps,predicate") -> Func:
     """A synthetic Func whose body is `f`'s body after the listed rewrites (cached per ctx)."""
     cache = ctx.__dict__.setdefault("_normalised", {})
@@ -655,6 +687,8 @@ def normalised(ctx: Ctx, f: Func, steps: str = "delegation,tailcalls,calls,unrol
         changed |= round_changed
         if not round_changed:
             break
+    if "ifexp" in want:
+        changed |= split_conditional_assignments(fn)
     if "decomp" in want:
         changed |= expand_list_comprehensions(fn)
     if "temps" in want:
